@@ -509,3 +509,45 @@ pub fn describe_case<P: Prop>(tier: Tier, lane: &str, cseed: u64) -> Value {
     let case = P::generate(&mut rng, tier, lane);
     serde_json::to_value(&case).unwrap_or(Value::Null)
 }
+
+/// In-process runner used under interpreters / sanitizers where spawning worker processes and
+/// writing files is not wanted (Miri): runs the cases `shard, shard+nshards, ...` below `cases` of
+/// `lane` and prints one JSON line per violation and a final summary line to stdout.
+pub fn run_inprocess<P: Prop>(tier: Tier, seed: u64, lane: &str, shard: u64, nshards: u64, cases: u64) -> i32 {
+    install_quiet_panic_hook();
+    let mut evaluations = 0u64;
+    let mut nontrivial = 0u64;
+    let mut violations = 0u64;
+    let mut hashes: Vec<String> = vec![];
+    let mut idx = shard;
+    while idx < cases {
+        let cseed = case_seed(seed, P::ID, lane, idx);
+        let mut rng = Rng::seed_from_u64(cseed);
+        let case = P::generate(&mut rng, tier, lane);
+        let mut obs = Obs::default();
+        if let Err((loc, msg)) = catch(|| P::check(&case, &mut obs)) {
+            let file = loc.split(':').next().unwrap_or("?").to_string();
+            obs.fail(format!("check/panic@{file}"), format!("panic at {loc}: {msg}"));
+        }
+        if P::RESETS_PANIC_HOOK {
+            install_quiet_panic_hook();
+        }
+        evaluations += 1;
+        let cj = serde_json::to_value(&case).unwrap_or(Value::Null);
+        if obs.nontrivial {
+            nontrivial += 1;
+            hashes.push(format!("{:016x}", hash_json(&cj)));
+        }
+        for v in &obs.violations {
+            violations += 1;
+            let rec = replay_record::<P>(lane, tier, seed, idx, cseed, &cj, v);
+            println!("INPROC-VIOLATION {rec}");
+        }
+        idx += nshards;
+    }
+    println!(
+        "INPROC-SUMMARY {}",
+        json!({"evaluations": evaluations, "nontrivial": nontrivial, "violations": violations, "nontrivial_hashes": hashes})
+    );
+    0
+}
